@@ -38,14 +38,20 @@ def gen_cases(tier: str, rng: random.Random) -> List[dict]:
                         cases.append({"mid": len(cases) + 1, "flavour": flavour, "default_repr": default_repr,
                                       "maxstring": ms, "maxlist": ml, "named_args": na, "named_kwargs": nk,
                                       "args": [{"name": "abc"[i], "kind": k, "size": sz} for i, (k, sz) in enumerate(combo)],
-                                      "order": list(order)})
+                                      "order": list(order), "role": "pre"})
+                        # the same violation as a postcondition and (one value, as an attribute) as an invariant
+                        if nargs == 1 or rng.random() < 0.25:
+                            cases.append(dict(cases[-1], mid=len(cases) + 1, role="post"))
+                        if nargs == 1:
+                            cases.append(dict(cases[-1], mid=len(cases) + 1, role="inv", named_args=False,
+                                              named_kwargs=False))
         # quantifier: the counterexample is rendered through the contract's a_repr as well
         for k, sz in (("list", 3), ("strset", 4), ("strset", ml + 2), ("list", 4 * ml), ("str", 5 * ms), ("str", 3)):
             for na in (False, True):
                 cases.append({"mid": len(cases) + 1, "flavour": "quant", "default_repr": default_repr, "maxstring": ms,
                               "maxlist": ml, "named_args": na, "named_kwargs": False,
                               "args": [{"name": "a", "kind": k, "size": sz}, {"name": "b", "kind": "str", "size": 5 * ms}],
-                              "order": [2, 1]})
+                              "order": [2, 1], "role": "pre"})
     return cases
 
 
@@ -123,7 +129,8 @@ def check_messages(res: CheckResult, tier: str, rng: random.Random) -> None:
                           {"signature": "msg.differs_across_runs", "case": c})
             continue
         # identical for every keyword order of the same call
-        key = json.dumps([c["flavour"], c["default_repr"], c["maxstring"], c["named_args"], c["named_kwargs"], c["args"]])
+        key = json.dumps([c["flavour"], c["default_repr"], c["maxstring"], c["named_args"], c["named_kwargs"], c["args"],
+                          c.get("role")])
         body = "\n".join(msg.split("\n")[1:])
         if key in base_key and base_key[key][1] != body:
             res.violation("msg.differs_across_runs",
@@ -140,8 +147,21 @@ def check_messages(res: CheckResult, tier: str, rng: random.Random) -> None:
         entries += [l for l in lines[1:] if " was " in l and not l.startswith("  ")]
         keys = [e.split(" was ", 1)[0] for e in entries]
         vals = {e.split(" was ", 1)[0]: e.split(" was ", 1)[1] for e in entries}
-        if keys != sorted(keys):
-            res.violation("msg.unsorted", what_case + ": value lines are not sorted: {}".format(keys),
+        if c.get("role") == "inv":
+            # the value is an attribute of the instance: `self.a` stands for the argument `a` of the case; the
+            # instance itself must be rendered through the contract's a_repr as well
+            if vals.get("self") != o0["rendered"]["self"]:
+                res.violation("msg.repr_not_contracts",
+                              what_case + ": `self` is shown as {!r}, the contract's a_repr gives {!r}".format(
+                                  str(vals.get("self"))[:80], o0["rendered"]["self"][:80]),
+                              {"signature": "msg.repr_not_contracts", "case": c, "message": body})
+                continue
+            raw_keys = list(keys)
+            keys = [k[5:] if k.startswith("self.") else k for k in keys if k != "self"]
+            vals = {(k[5:] if k.startswith("self.") else k): v for k, v in vals.items() if k != "self"}
+        sort_keys = raw_keys if c.get("role") == "inv" else keys
+        if sort_keys != sorted(sort_keys):
+            res.violation("msg.unsorted", what_case + ": value lines are not sorted: {}".format(sort_keys),
                           {"signature": "msg.unsorted", "case": c, "message": body})
             continue
         exp = expected.get(mid)
@@ -149,6 +169,8 @@ def check_messages(res: CheckResult, tier: str, rng: random.Random) -> None:
             raise MachineryError("no specification output for message case {}".format(mid))
         arg_names = {a["name"] for a in c["args"]} | {"_ARGS", "_KWARGS"}
         got_names = [k for k in keys if k in arg_names]
+        if c.get("role") == "inv" and c["flavour"] == "named":
+            continue  # the named invariant condition does not reference the attribute: only `self` is listed
         if got_names != list(exp["lines"]):
             clause = "msg.nonrepresentable_shown" if set(got_names) - set(exp["lines"]) else "msg.value_missing_arg"
             if {"_ARGS", "_KWARGS"} & (set(got_names) ^ set(exp["lines"])):
